@@ -50,3 +50,26 @@ Theorem C06_shared_path_refuted :
   snd (run_solo [] (nth 1 progs []) dflt) = [ObsVerdict (Raise AnnotationErr)].
 Proof. exact shared_path_refuted. Qed.
 Print Assumptions C06_shared_path_refuted.
+
+(* the atomic storage steps of the thread model are what the accessor functions of jaxtyping/_storage.py do, as regenerated
+   from the source on every run (gen/StorageSrc.v interpreted by model/SL.v): each step, run from any well-typed state of a
+   thread's cells, lands in the state the model's step_view computes *)
+From JT Require Import model.SL gen.StorageSrc proofs.SLFacts.
+Theorem C06_thread_model_storage_steps_are_the_source : forall st o f args s,
+  wf_cells s ->
+  acc_of_step o = Some (f, args) ->
+  (o = TPop -> ps_stack (abs_store s) <> []) ->
+  exists r s', run_acc storage_src f args s = Some (r, s') /\ r <> SRExn XOther /\
+               abs_store s' = fst (step_view st o (abs_store s)) /\ wf_cells s'.
+Proof. exact thread_model_storage_steps_are_the_source. Qed.
+Print Assumptions C06_thread_model_storage_steps_are_the_source.
+
+Theorem C06_leaf_position_step_is_the_source : forall s (i : nat) structure r s',
+  wf_cells s ->
+  run_acc storage_src "set_treepath_memo" [SVInt (Z.of_nat i); SVStr structure] s = Some (r, s') ->
+  match ps_path (abs_store s) with
+  | Some _ => r = SRExn XAnnotation /\ s' = s
+  | None => r = SRVal SVNone /\ abs_store s' = with_path (abs_store s) (Some (label_of i structure)) /\ wf_cells s'
+  end.
+Proof. exact set_treepath_refines. Qed.
+Print Assumptions C06_leaf_position_step_is_the_source.
